@@ -11,6 +11,8 @@ TECHNIQUE = {
  "C01": "path-sensitive exploration (event bits for Content-Length / Transfer-Encoding matches, facts on connectionClose and the framing cell) of the request head field loop; serve-loop error exploration; byte-comparison coverage of the chunk-size scanner",
  "C03": "value-flow to the bounding writer and bounded-use classification of its methods, path-sensitive nil-return exploration of writeBodyFixedSize, control-dependence of body emission on the no-body predicate, must-pass rules in SetContentLength, serve-loop HEAD exploration",
  "C02": "path-sensitive exploration of the serve loop's SSA CFG over a finite abstraction (event bits + boolean/nil facts): must-close / must-check obligations per iteration",
+ "C05": "backward cleanliness (taint) analysis with sanitiser classes over SSA: reaching definitions of scratch fields, in-place and returning neutraliser summaries, call-site resolution of helper parameters, induction over checked storage fields; neutraliser shape precondition",
+ "C06": "as C05 with two sanitiser classes (CR/LF and ';') for Cookie fields and the request cookie list",
  "C10": "backward condition slicing (interprocedural atoms of the close decision) + path-sensitive exploration of the serve loop",
  "C11": "field-coverage must-analysis of reset methods (forward dataflow, intersection at joins, callee summaries) + loop-carried staleness exploration of the serve loop",
  "C12": "counter pairing by path-sensitive exploration with counters in the abstract state (deferred calls applied at exit, ownership hand-offs as rule events), control-dependence of admission on the limit comparison, must-pass rules on rejection paths",
